@@ -811,6 +811,8 @@ class Exec:
         if isinstance(base, Opt):
             p = self.implicit(p, base.isnone, "TypeError", node)
             base = base.val
+        if isinstance(base, ModV) and ("getitem:" + base.qual) in self.handlers:    # e.g. numpy.c_[a, b]
+            return self.handlers["getitem:" + base.qual](self, p, [idx], {}, node)
         if isinstance(base, Dct):
             hits = []
             for k, v in base.pairs:
